@@ -23,7 +23,7 @@ def make_cases(tier, profile):
         for l in ['OPER opname goodpw', 'OPER opname badpw', 'OPER nobody goodpw', 'OPER alice goodpw', 'OPER alice x']:
             cases.append(dict(name=f'{l} [{tag}]', line=l, judges=['no_panic', 'inv', 'oper'], spec=dict(base, operators=opers)))
     # operator commands from every privilege level
-    ospec = dict(base, sym_users=True)
+    ospec = dict(base, sym_users=True, operators=[('opname', 'goodpw', None)])      # operators configured: the actor may be an operator
     for l in ['KILL bob :go away', 'KILL dave :x', 'KILL alice :self', 'DIE', 'DIE :bye all', 'SQUIT irc.irc :stop', 'SQUIT other.srv :stop', 'WALLOPS :attention', 'WALLOPS hello', 'STATS u', 'STATS m']:
         cases.append(dict(name=l, line=l, judges=['no_panic', 'inv', 'opcmd'], spec=ospec))
     lspec = dict(base, sym_users=True, default_user_modes={'local_oper': True}, operators=[('opname', 'goodpw', None)])
